@@ -699,3 +699,167 @@ def edges(ctx, facts, rule="TRANSFER"):
                 a, c = flow.expr_of(ps, r_["a"], max_depth=20), flow.expr_of(ps, r_["b"], max_depth=20)
                 rem = "generate_one_side" in str(a) and "shard_count" in str(c)
         ctx.ob(rule, "pick_shard:draw-mod-shard-count", okg and rem, "pick_shard = generate_one_side(record_id, direction) % shard_count" if okg and rem else "pick_shard is not its own (record id, direction) draw reduced modulo the shard count (both holders of the key must pick the same existing shard)", site_of(ps))
+
+
+# ---------------------------------------------------------------------------------------------
+def tags(ctx, facts, rule="TAG"):
+    """What each helper hashes for a row is <keys, (row words .., tag)> with the tag's coefficient fixed to ONE, so that
+    for two tables differing by a validly tagged row the hashes agree (and otherwise differ except with 2^-32)."""
+    from rules.C07 import Poly, ev, Unknown as EvUnknown
+    from rules import malsec
+    ctx.rule(f"{rule}: compute_and_hash_tags hashes, per row, fold(ZERO, acc + entry * key) over zip(words(row) ++ [tag], keys) with (row, tag) = split_row_and_tag(item) - the step closure is the polynomial acc + entry*key; reveal_keys returns the opened keys followed by ONE (the tag's coefficient) and opens key i under record id i")
+    base = "protocol::ipa_prf::shuffle::malicious::"
+    top = facts.bodies.get(base + "compute_and_hash_tags")
+    c0 = facts.bodies.get(base + "compute_and_hash_tags::{closure#0}")
+    c1 = facts.bodies.get(base + "compute_and_hash_tags::{closure#1}")
+    step = facts.bodies.get(base + "compute_and_hash_tags::{closure#1}::{closure#0}")
+    if None in (top, c0, c1, step):
+        ctx.missing(rule, "compute_and_hash_tags and its three closures")
+    else:
+        ctx.count(bodies=4)
+        # step closure as a polynomial
+        try:
+            def leaf(e):
+                if e == ("arg", 2):
+                    return Poly.var("acc")
+                if e[:3] == ("arg", 3, 0) or e[:3] == ("arg", 3, "0"):
+                    return Poly.var("entry")
+                if e[:3] == ("arg", 3, 1) or e[:3] == ("arg", 3, "1"):
+                    return Poly.var("key")
+                return None
+            p = ev(flow.expr_of(step, {"cp": [0]}, max_depth=12), leaf)
+            okp = p == Poly.var("acc") + Poly.var("entry") * Poly.var("key")
+            why = "acc + entry * key" if okp else f"the fold step is {dict(p)}, not acc + entry*key"
+        except EvUnknown as ex:
+            okp, why = False, f"cannot read the fold step ({ex})"
+        ctx.ob(rule, "hash:fold-step", okp, why, site_of(step))
+        fc = flow.find_calls(c1, re.compile(r"Iterator::fold$"))
+        okf = False
+        if len(fc) == 1:
+            a = [flow.expr_of(c1, x, max_depth=10) for x in fc[0][1]["args"]]
+            zipped = a[0][0] == "call" and a[0][1].endswith("Iterator::zip") and a[0][2][0] == ("arg", 2) and a[0][2][1][0] == "upvar"
+            okf = zipped and a[1][0] == "const" and str(a[1][1]).endswith("::ZERO")
+        ctx.ob(rule, "hash:fold-from-zero-over-zip(entries, keys)", okf, "fold(ZERO, ..) over zip(row entries, keys)" if okf else "the per-row value is not fold(ZERO, ..) over zip(row entries, keys): a constant offset or a missing key makes honest tables disagree / hides a change", site_of(c1, fc[0][0]) if fc else site_of(c1))
+        ch = flow.find_calls(c0, re.compile(r"Iterator::chain$"))
+        okc = False
+        if len(ch) == 1:
+            a = [flow.expr_of(c0, x, max_depth=14) for x in ch[0][1]["args"]]
+            sp = ("call", base + "split_row_and_tag", (("arg", 2),))
+            w = a[0]
+            while w[0] == "call" and re.search(r"(IntoIterator::into_iter|Result::<T, E>::(unwrap|expect))$", w[1]):
+                w = w[2][0]
+            words = w if w[0] == "call" and w[1].endswith("TryInto::try_into") else None
+            okc = words is not None and words[2][0][:2] == ("proj", sp) and str(words[2][0][2]) == "0" and a[1] == ("call", "std::iter::once", (("proj", sp, 1),))
+        ctx.ob(rule, "hash:entries=row-words-then-tag", okc, "words(row).chain(once(tag)), (row, tag) = split_row_and_tag(item)" if okc else "the hashed entries are not the row's words followed by its tag", site_of(c0, ch[0][0]) if ch else site_of(c0))
+        r = flow.expr_of(top, {"cp": [0]}, max_depth=12)
+        okr = r[0] == "call" and r[1].endswith("compute_possibly_empty_hash") and r[2][0][0] == "call" and r[2][0][1].endswith("Iterator::map") and r[2][0][2][0][0] == "call" and r[2][0][2][0][1].endswith("Iterator::map")
+        ctx.ob(rule, "hash:every-row", okr, "hash over the per-row values of every item" if okr else "not every item's value enters the hash", site_of(top))
+    # reveal_keys
+    rk = next((b for b in facts.tree(base + "reveal_keys") if b.coroutine and flow.find_calls(b, re.compile(r"Iterator::chain$"))), None)
+    if rk is None:
+        ctx.missing(rule, "reveal_keys")
+        return
+    ctx.count(bodies=2)
+    ch = flow.find_calls(rk, re.compile(r"Iterator::chain$"))
+    okk = False
+    if len(ch) == 1:
+        a = [flow.expr_of(rk, x, max_depth=30) for x in ch[0][1]["args"]]
+        okk = malsec.value_source(a[0], r"SeqJoin::parallel_join$") is not None and a[1][0] == "call" and a[1][1].endswith("iter::once") and a[1][2][0][0] == "const" and str(a[1][2][0][1]).endswith("::ONE")
+        ret = [bb for bb in malsec.ok_blocks(rk)]
+        col = flow.find_calls(rk, re.compile(r"Iterator::collect$"))
+        okk = okk and len(col) == 1 and malsec.value_source(flow.expr_of(rk, col[0][1]["args"][0], max_depth=6), r"Iterator::chain$") is not None
+    ctx.ob(rule, "keys:opened-then-ONE", okk, "keys = opened key shares ++ [ONE]" if okk else "the key vector is not the opened keys followed by ONE: the tag word is weighted wrongly (honest rows fail) or not at all (tag changes go unnoticed)", site_of(rk, ch[0][0]) if ch else site_of(rk))
+    inner = [b for b in facts.tree(base + "reveal_keys") if b.coroutine and flow.find_calls(b, re.compile(r"reveal::malicious_reveal$"))]
+    oki = False
+    if len(inner) == 1:
+        ib = inner[0]
+        mr = flow.find_calls(ib, re.compile(r"reveal::malicious_reveal$"))[0]
+        a = [flow.expr_of(ib, x, max_depth=8) for x in mr[1]["args"]]
+        oki = a[1][0] == "call" and a[1][1].endswith("From::from") and a[1][2][0][0] == "upvar" and a[3][0] == "upvar" and a[2] == ("agg", ("std::option::Option", "None"), ())
+    ctx.ob(rule, "keys:key-i-under-record-i", oki, "malicious_reveal(ctx, RecordId::from(i), None, key_i): opened to all helpers" if oki else "key shares are not opened one per record id to every helper with malicious_reveal", site_of(inner[0]) if inner else site_of(rk))
+
+
+def tag_generation(ctx, facts, rule="TAG"):
+    """compute_and_add_tags: tag_i = sum_col key_col * word_{i,col} (shared multiplication), attached to row i."""
+    ctx.rule(f"{rule} (generation): per chunk, column col of the transposed rows is (split_rows[i][col]) for i in 0..TAG_CHUNK; column col is multiplied with expanded key col on context col under the chunk's record id; the products are summed from ZERO with acc + x; row i of the chunk is concatenated with tag i; total records = ceil(rows / TAG_CHUNK); an empty input returns an empty table")
+    base = "protocol::ipa_prf::shuffle::malicious::compute_and_add_tags"
+    tree = {b.path[len(base):]: b for b in facts.tree(base)}
+    chunk_b = next((b for p, b in tree.items() if b.coroutine and flow.find_calls(b, re.compile(r"TryStreamExt::try_fold$"))), None)
+    outer = next((b for p, b in tree.items() if b.coroutine and flow.find_calls(b, re.compile(r"process_slice_by_chunks$"))), None)
+    if chunk_b is None or outer is None:
+        return ctx.missing(rule, "compute_and_add_tags (outer body / per-chunk body)")
+    ctx.count(bodies=len(tree))
+    cp = chunk_b.path[len(base):]
+    # transposition
+    tr = next((b for p, b in sorted(tree.items()) if not b.coroutine and any(t2 for _, t2 in flow.find_calls(b, re.compile(r"ops::Index::index$")) if flow.expr_of(b, t2["args"][0], max_depth=4) == ("upvar", "split_rows"))), None)
+    okt = False
+    if tr is not None:
+        r = flow.expr_of(tr, {"cp": [0]}, max_depth=10)
+        src = r
+        while src[0] == "call" and re.search(r"(Clone::clone|Deref::deref)$", src[1]):
+            src = src[2][0]
+        okt = src == ("call", "std::ops::Index::index", (("call", "std::ops::Index::index", (("upvar", "split_rows"), ("arg", 2))), ("upvar", flow.upvar_name(tr, 1) or "col")))
+        okt = okt or (src[0] == "call" and src[1].endswith("Index::index") and src[2][0] == ("call", "std::ops::Index::index", (("upvar", "split_rows"), ("arg", 2))) and src[2][1][0] == "upvar")
+    ctx.ob(rule, "gen:transpose[i][col]", okt, "column col holds word col of row i at lane i" if okt else "the transposition does not take split_rows[i][col] (rows and columns mixed up: tags are computed over the wrong words)", site_of(tr) if tr is not None else site_of(chunk_b))
+    # multiply(ctx_k, record i, key_k, col_k) over zip(tag_ctx, zip(keys, cols))
+    z = flow.find_calls(chunk_b, re.compile(r"Iterator::zip$"))
+    okz = False
+    if len(z) == 1:
+        a0, a1 = (flow.expr_of(chunk_b, x, max_depth=12) for x in z[0][1]["args"])
+        okz = a0[0] == "call" and a0[1].endswith("::iter") and a0[2][0][0] == "upvar" and a1[0] == "call" and a1[1] == "std::iter::zip"
+        if okz:
+            k_, c_ = a1[2]
+            okz = "Expand::expand" in str(k_) and "Range" in str(c_) and "Expand::expand" not in str(c_)
+    mulb = next((b for p, b in tree.items() if b.coroutine and flow.find_calls(b, re.compile(r"(sh_multiply|semi_honest_multiply)$"))), None)
+    okm = False
+    if mulb is not None:
+        m = flow.find_calls(mulb, re.compile(r"(sh_multiply|semi_honest_multiply)$"))[0]
+        a = [flow.expr_of(mulb, x, max_depth=8) for x in m[1]["args"]]
+        okm = a[1][0] == "call" and a[1][1].endswith("From::from") and a[1][2][0][0] == "upvar" and {a[2], a[3]} == {("upvar", "key"), ("upvar", "data")} and "upvar" in str(a[0])
+    ctx.ob(rule, "gen:key-col-times-column-col", okz and okm, "zip(tag contexts, zip(expanded keys, columns)) -> multiply(ctx, record(chunk index), key, column)" if okz and okm else "keys, columns and per-column contexts are not zipped in step, or the product is not key * column under the chunk's record id", site_of(chunk_b, z[0][0]) if z else site_of(chunk_b))
+    # sum
+    tf = flow.find_calls(chunk_b, re.compile(r"TryStreamExt::try_fold$"))
+    addb = None
+    if tf:
+        old = flow.CLOSURE_DEFS
+        flow.CLOSURE_DEFS = True
+        try:
+            ce = flow.expr_of(chunk_b, tf[0][1]["args"][2], max_depth=4)
+        finally:
+            flow.CLOSURE_DEFS = old
+        if ce[0] == "agg" and isinstance(ce[1], tuple) and ce[1][0] == "closure":
+            addb = facts.bodies.get(ce[1][1])
+    oks = False
+    if tf and addb is not None:
+        init = flow.expr_of(chunk_b, tf[0][1]["args"][1], max_depth=6)
+        r = flow.expr_of(addb, {"cp": [0]}, max_depth=10)
+        oks = init[0] == "const" and str(init[1]).endswith("::ZERO") and ("call", "std::ops::Add::add", (("arg", 2), ("arg", 3))) in list(_walk_all(r)) and "then" in str(flow.expr_of(chunk_b, tf[0][1]["args"][0], max_depth=4))
+    ctx.ob(rule, "gen:sum-from-zero", oks, "try_fold(ZERO, acc + x) over the products" if oks else "the tag is not the plain sum of the per-column products starting from ZERO", site_of(chunk_b, tf[0][0]) if tf else site_of(chunk_b))
+    # attach tag i to row i
+    catb = next((b for p, b in tree.items() if flow.find_calls(b, re.compile(r"concatenate_row_and_tag$"))), None)
+    oka = False
+    if catb is not None:
+        c = flow.find_calls(catb, re.compile(r"concatenate_row_and_tag$"))[0]
+        a0, a1 = (flow.expr_of(catb, x, max_depth=8) for x in c[1]["args"])
+        row_i = [x for x in _walk_all(a0) if x == ("arg", 2)] or ("'i'" in str(a0) and "chunk" in str(a0))
+        oka = bool(row_i) and a1 == ("call", "std::ops::Index::index", (("upvar", "tags"), ("arg", 2))) and "chunk" in str(a0)
+    ctx.ob(rule, "gen:tag-i-to-row-i", oka, "concatenate_row_and_tag(chunk[i], tags[i])" if oka else "a row is concatenated with another row's tag", site_of(catb) if catb is not None else site_of(chunk_b))
+    # sizes
+    sp = flow.find_calls(outer, re.compile(r"TotalRecords::specified$"))
+    okn = False
+    if sp:
+        e = flow.expr_of(outer, sp[0][1]["args"][0], max_depth=8)
+        okn = e[0] == "call" and e[1].endswith("div_round_up") and e[2][0] == ("call", "std::vec::Vec::<T, A>::len", (("upvar", "rows"),))
+    ctx.ob(rule, "gen:records=ceil(rows/chunk)", okn, "total records = div_round_up(rows.len(), TAG_CHUNK)" if okn else "the multiplication channels are not sized to the number of row chunks", site_of(outer, sp[0][0]) if sp else site_of(outer))
+
+
+def _walk_all(e):
+    if isinstance(e, tuple) and e and isinstance(e[0], str):
+        yield e
+        for x in e[1:]:
+            if isinstance(x, tuple):
+                if x and isinstance(x[0], str):
+                    yield from _walk_all(x)
+                else:
+                    for y in x:
+                        yield from _walk_all(y)
